@@ -192,6 +192,7 @@ def judge(o):
     if o is None: return "no-output"
     if o.startswith("CRASH"): return "crash"
     if "HANG step=" in o: return "hang:" + o.split("at=")[-1][:80]
+    if o.startswith("HANG"): return "hang:line-timeout"
     st = parse_hist(o)
     if st is None: return "unparsable"
     for s in st:
@@ -291,8 +292,9 @@ def gen_modules(ctx):
     return mods
 
 def replay_witnesses(ctx):
+    local = {f["id"]: f for f in PROPOSED_FINDINGS}
     for f in ctx.findings:
-        w = f.get("witness", {})
+        w = local.get(f["id"], f).get("witness", {})       # the ledger-driver witness of this file where there is one
         if f.get("status") != "known" or "module" not in w: continue
         names = re.findall(r"(\w+)\s*::=", w["module"].split("BEGIN", 1)[1])
         b = bundle.Bundle("w" + f["id"], w["module"], names, driver_sources=DRV, link_flags=WRAP)
@@ -508,6 +510,7 @@ def run(ctx):
             why = None
             if o is None or o.startswith("CRASH"): why = "crash"
             elif "HANG step=" in o: why = "hang:" + o.split("at=")[-1][:80]
+            elif o.startswith("HANG"): why = "hang:line-timeout"
             elif not o.startswith("same "): why = "reset-differs-from-fresh"
             elif " zeroed=1 " not in o + " ": why = "not-zeroed"
             elif not o.endswith("live=0 doublefree=0"): why = "leak"
